@@ -614,3 +614,51 @@ def _o():
 def _o():
     H = I("py_ecc.bls.hash_to_curve")
     return (H.hash_to_G2, [b"\x5a" * 70001, b"another tag", hashlib.sha256], {})
+
+
+@op("hkdf_extract:bytearray-mutated-between-calls", 0)
+def _o():
+    H = I("py_ecc.bls.hash")
+    def f(salt, ikm):
+        a = bytes(H.hkdf_extract(salt, ikm))
+        salt[0] ^= 0x55
+        b = bytes(H.hkdf_extract(salt, ikm))
+        salt[0] ^= 0x55
+        return (a, b, bytes(H.hkdf_extract(salt, ikm)))
+    return (f, [bytearray(b"salt-salt"), bytearray(b"ikm" * 5)], {})
+
+
+# ------------------------------------------------------------------ elements carrying FQ-object coefficients
+for _fam in ("bn_opt", "bls_opt"):
+    def _mk4(fam):
+        @op("FQ2.inv/div:fq-object-coefficients:%s" % fam, 0)
+        def _a():
+            FQ, FQ2 = _F(fam, "FQ"), _F(fam, "FQ2")
+            return (lambda x, y: (x.inv(), y / x, x * x, x.sgn0, (x * 2).sgn0, (3 * x).sgn0, (-x).sgn0),
+                    [FQ2([FQ(3), FQ(4)]), FQ2([FQ(5), FQ(7)])], {})
+
+        @op("FQ12.inv:fq-object-coefficients:%s" % fam, 1)
+        def _b():
+            FQ, FQ12 = _F(fam, "FQ"), _F(fam, "FQ12")
+            return (lambda x: (x.inv(), x * x, x.sgn0, (x * 2).sgn0), [FQ12([FQ(i + 1) for i in range(12)])], {})
+
+        @op("FQ2.sgn0-then-scale:%s" % fam, 0)
+        def _c():
+            FQ2 = _F(fam, "FQ2")
+            def f(x):
+                a = x.sgn0
+                return (a, (x * 2).sgn0, (2 * x).sgn0, (x * 3).sgn0, (x + x).sgn0, (x * x).sgn0)
+            return (f, [FQ2([5, 7])], {})
+    _mk4(_fam)
+
+
+@op("normalize/compress_G2:fq-object-z", 1)
+def _o():
+    M = I("py_ecc.optimized_bls12_381")
+    PC = I("py_ecc.bls.point_compression")
+    FQ, FQ2 = M.FQ, M.FQ2
+    def f(P):
+        return (M.normalize(P), PC.compress_G2(P), M.normalize(P))
+    G = M.G2
+    lam = FQ2([FQ(3), FQ(4)])
+    return (f, [(G[0] * lam, G[1] * lam, lam)], {})
